@@ -7,7 +7,8 @@ CONSTANTS
   MaxLen = 2
   Record = FALSE
   Starts = {0}
-  CtxChoices = {-1, 3}
+  CtxChoices = {3}
+  Rich = FALSE
   Sim = FALSE
 SPECIFICATION LiveSpec
 INVARIANTS TypeOK
